@@ -137,10 +137,7 @@ def run_table(case, st=None):
     if d: return ("json", "SPARQL JSON round trip: " + d)
     # ---- XML
     xml_ok = all(XML_CHAR.match(str(t)) for t in terms)
-    has_cr = any(isinstance(t, Literal) and "\r" in str(t) for t in terms)
-    if xml_ok and has_cr and carve:
-        st.setdefault("_known", {})["C16-xml-carriage-return"] = 1
-    elif xml_ok:
+    if xml_ok:
         try:
             data = r.serialize(format="xml")
             xml.dom.minidom.parseString(data)
@@ -153,10 +150,7 @@ def run_table(case, st=None):
     else:
         st["xml-inexpressible"] = st.get("xml-inexpressible", 0) + 1
     # ---- TSV (our rendering -> rdflib's reader)
-    tsv_breaks = any(isinstance(t, Literal) and any(ch in str(t) for ch in "\x0b\x0c\x1c\x1d\x1e\x85\u2028\u2029") for t in terms)
-    if tsv_breaks and carve:
-        st.setdefault("_known", {})["C16-tsv-unicode-linebreaks"] = 1
-    elif case["vars"]:
+    if case["vars"]:
         bits = case.get("tsv_bits", len(case["rows"]))
         lines = ["\t".join("?" + v for v in case["vars"])]
         keep = []
